@@ -41,11 +41,13 @@ Lemma len_loaded_agrees :
   model_obs (RRaw, len_doc) [([], OpLoad); ([], OpLen)] = spec_obs (RRaw, len_doc) [([], OpLoad); ([], OpLen)].
 Proof. vm_compute. reflexivity. Qed.
 
-(* 3. a soft-deleted pair has Key "" : the linear search for the key "" stops at it *)
+(* 3. REPAIRED (6c9aabd): a soft-deleted pair has Key "" and the linear search for the key "" used to stop at it; the search now
+      skips cells that are Pair{} (hash 0, Key "", Value V_NONE) *)
 Definition ek_doc : tree := TObj [([97], num_n 1); ([], num_n 2)].
-Definition ek_ops : list step := [([], OpUnset [97]); ([SKey []], OpLook)].
-Lemma emptykey_unset_witness : model_obs (RRaw, ek_doc) ek_ops <> spec_obs (RRaw, ek_doc) ek_ops.
-Proof. vm_compute. discriminate. Qed.
+Definition ek_ops : list step :=
+  [([], OpUnset [97]); ([SKey []], OpLook); ([], OpSet [] (RRaw, num_n 9)); ([], OpMarshal)].
+Lemma emptykey_unset_agrees : model_obs (RRaw, ek_doc) ek_ops = spec_obs (RRaw, ek_doc) ek_ops.
+Proof. vm_compute. reflexivity. Qed.
 
 (* 4. REPAIRED (ecd1239): Unset(key) used to leave the index entry behind; after Pop shrank the storage the entry pointed past
       size and the next Get(key) dereferenced nil.  removePair/removePairAt now delete the entry. *)
@@ -55,8 +57,10 @@ Lemma stale_index_agrees :
   model_obs (RRaw, TObj (obj_n 18)) stale_ops = spec_obs (RRaw, TObj (obj_n 18)) stale_ops.
 Proof. vm_compute. reflexivity. Qed.
 
-(* 5. Move with an out-of-range position does nothing on a dense array but moves a cell when some cell is unset *)
+(* 5. REPAIRED (d346b1d): Move with an out-of-range position did nothing on a dense array but moved a cell when some cell was
+      unset; it is now a no-op in both cases, and in-range moves over unset cells still move *)
 Definition mv_doc : tree := TArr [num_n 0; num_n 1; num_n 2; num_n 3; num_n 4].
-Definition mv_ops : list step := [([], OpUnsetIdx 1); ([], OpUnsetIdx 1); ([], OpMove 4 0); ([], OpMarshal)].
-Lemma move_oor_holes_witness : model_obs (RRaw, mv_doc) mv_ops <> spec_obs (RRaw, mv_doc) mv_ops.
-Proof. vm_compute. discriminate. Qed.
+Definition mv_ops : list step :=
+  [([], OpUnsetIdx 1); ([], OpUnsetIdx 1); ([], OpMove 4 0); ([], OpMarshal); ([], OpMove 2 0); ([], OpMarshal)].
+Lemma move_oor_holes_agrees : model_obs (RRaw, mv_doc) mv_ops = spec_obs (RRaw, mv_doc) mv_ops.
+Proof. vm_compute. reflexivity. Qed.
